@@ -90,7 +90,7 @@ func gen(t *rapid.T) Case {
 	c.Jitter = rapid.Uint32Range(0, 100).Draw(t, "jitter")
 	c.Path = "C:\\P" + rapid.StringMatching(`[A-Za-z0-9]{1,12}`).Draw(t, "path")
 	c.TaskID = rapid.Uint32Range(1, 0xffffffff).Draw(t, "task")
-	c.Up = rapid.SampledFrom([]string{"ok", "ok", "not-outstanding", "parent-outstanding-only", "parent-key", "to-side"}).Draw(t, "up")
+	c.Up = rapid.SampledFrom([]string{"ok", "ok", "not-outstanding", "parent-outstanding-only", "parent-key", "to-side", "refused-then-ok", "ok-then-refused", "refused-refused-ok"}).Draw(t, "up")
 	c.UpMarker = "UPMARK" + rapid.StringMatching(`[a-z]{6}`).Draw(t, "upm")
 	if rapid.IntRange(0, 2).Draw(t, "relink?") > 0 {
 		c.Relink = rapid.IntRange(1, depth).Draw(t, "relink")
@@ -326,7 +326,26 @@ func upward(c Case, w *agx.World, chain []sess, side, target sess, reqCd uint32,
 		encKey, encIV = side.Key, side.IV
 		expectEffect = false
 	}
-	pkg := demonref.Batch(sender.ID, 0, []demonref.Sub{{Cmd: agent.COMMAND_FS, ReqID: req, Body: cbBody}}, encKey, encIV)
+	subs := []demonref.Sub{{Cmd: agent.COMMAND_FS, ReqID: req, Body: cbBody}}
+	// one frame of the child carrying several callbacks: those with an id that was never issued are
+	// refused one by one, the others are acted upon - whatever their position in the frame
+	refusedMarker := "REFUSED" + c.UpMarker
+	refused := func(i uint32, long bool) demonref.Sub {
+		m := refusedMarker
+		if long {
+			m += strings.Repeat("x", 300)
+		}
+		return demonref.Sub{Cmd: agent.COMMAND_FS, ReqID: reqCd ^ (0x00f0f0f0 + i), Body: (&demonref.Enc{}).Int32(4).WString(m).B}
+	}
+	switch c.Up {
+	case "refused-then-ok":
+		subs = []demonref.Sub{refused(0, false), subs[0]}
+	case "ok-then-refused":
+		subs = []demonref.Sub{subs[0], refused(0, true)}
+	case "refused-refused-ok":
+		subs = []demonref.Sub{refused(0, true), refused(1, false), subs[0]}
+	}
+	pkg := demonref.Batch(sender.ID, 0, subs, encKey, encIV)
 	code, _ := w.Post(wrapUp(chain, depth, pkg))
 	if code != 200 {
 		return core.V("up|status|"+c.Up, "relayed callback answered %d", code)
@@ -335,6 +354,9 @@ func upward(c Case, w *agx.World, chain []sess, side, target sess, reqCd uint32,
 	hit := ""
 	for id, ts := range texts {
 		for _, tx := range ts {
+			if strings.Contains(tx, refusedMarker) {
+				return core.V("up|accepted|never-issued-id-in-mixed-frame|"+tag, "scenario %s: a callback with a request id that was never issued had an effect (console output on session %s)", c.Up, id)
+			}
 			if strings.Contains(tx, c.UpMarker) {
 				hit = id
 			}
@@ -342,6 +364,9 @@ func upward(c Case, w *agx.World, chain []sess, side, target sess, reqCd uint32,
 	}
 	if expectEffect {
 		if hit == "" {
+			if len(subs) > 1 {
+				return core.V("up|dropped|in-mixed-frame|"+c.Up+"|"+tag, "a frame of %08x carried %d callbacks; the one for its outstanding task produced no console output (relayed through %d hop(s))", target.ID, len(subs), depth)
+			}
 			return core.V("up|dropped|"+tag, "a callback of %08x for its outstanding task, relayed through %d hop(s), produced no console output", target.ID, depth)
 		}
 		if hit != target.NameID() {
@@ -459,7 +484,7 @@ func classify(c Case) core.Class {
 func TestC08(t *testing.T) {
 	core.Run(t, core.Spec[Case]{
 		Property: "C08", Sub: "a",
-		Rule: "pivot chains of depth 1-5 (optional sibling of the target) built through real, relayed SMB_CONNECT callbacks; ids from {1,2,2^31-1,2^31,2^32-1,random}, distinct keys; two operator tasks (sleep, fs/cd) for the last agent are unwrapped from the first hop's check-in reply layer by layer with each hop's own key and SmbRecv's frame rules; then a callback of the last agent is wrapped once per ancestor in scenarios ok / id never issued / id outstanding only for the parent / encrypted under the parent's key / sent by the sibling with the target's id; then (2 of 3 cases) one agent of the chain - the target or one of its ancestors - reconnects under a new directly connected agent and a third task for the last agent must be found, correctly wrapped for the new chain, at the new first hop and not at the old one. Non-trivial: depth >= 2 or an id >= 2^31; distinct = (depth, big id, sibling, scenario)",
+		Rule: "pivot chains of depth 1-5 (optional sibling of the target) built through real, relayed SMB_CONNECT callbacks; ids from {1,2,2^31-1,2^31,2^32-1,random}, distinct keys; two operator tasks (sleep, fs/cd) for the last agent are unwrapped from the first hop's check-in reply layer by layer with each hop's own key and SmbRecv's frame rules; then a callback of the last agent is wrapped once per ancestor in scenarios ok / id never issued / id outstanding only for the parent / encrypted under the parent's key / sent by the sibling with the target's id / one frame mixing callbacks with never-issued ids and the outstanding one in either order; then (2 of 3 cases) one agent of the chain - the target or one of its ancestors - reconnects under a new directly connected agent and a third task for the last agent must be found, correctly wrapped for the new chain, at the new first hop and not at the old one. Non-trivial: depth >= 2 or an id >= 2^31; distinct = (depth, big id, sibling, scenario)",
 		Gen:   gen, Check: check, Classify: classify,
 		Assumptions: []string{"the Demon's pipe framing and PivotPush wrapping are transcribed from TransportSmb.c / Pivot.c / Command.c"},
 	})
